@@ -221,7 +221,8 @@ package decoder
 //@   trusted interface contract: implementations under contract are verified against their own, stronger contracts; the others (reflection-driven decoders) are assumed to satisfy it
 //@   requires ctx != nil && bufOK(ctx.Buf, cursor)
 // assumed of every implementation: on success the cursor stays inside the buffer and the terminator is still there
-//@   ensures err == nil ==> cursor <= c && c < len(old(ctx.Buf)) && M(ptrOf(old(ctx.Buf)) + len(old(ctx.Buf)) - 1) == 0
+//@   ensures err == nil ==> cursor < c && c < len(old(ctx.Buf)) && M(ptrOf(old(ctx.Buf)) + len(old(ctx.Buf)) - 1) == 0
+//@   ensures ctx.Buf == old(ctx.Buf)
 //@   assigns all
 
 //@ func Decoder.DecodePath(d, ctx, cursor, depth) (paths, c, err)
@@ -407,3 +408,37 @@ package decoder
 //@   props C20 C06
 //@   requires b != nil
 //@   assigns PathBuilder.root, PathBuilder.node, PathBuilder.singleQuotePathSelector, PathBuilder.doubleQuotePathSelector
+
+// ---------------------------------------------------------------- decoding touches only the destination (C07)
+// rsize(t): the size in bytes of runtime type t (uninterpreted; tied to the decoder structs by their invariants)
+//@ ufun rsize(Int) Int
+
+//@ func typedmemmove(t, dst, src) ()
+//@   props C07
+//@   trusted go:linkname reflect.typedmemmove: copies rsize(t) bytes from src to dst
+//@   requires region(dst, rsize(t))
+//@   assigns M
+
+//@ func unsafe_New(t) (p)
+//@   props C07
+//@   trusted go:linkname reflect.unsafe_New: a fresh zeroed object of type t
+//@   ensures p != nil
+//@   assigns nothing
+
+// The array decoder may write only inside the alen*size bytes of the destination array; every element
+// handed down to the element decoder lies inside it.
+//@ func (*arrayDecoder).Decode(d, ctx, cursor, depth, p) (c, err)
+//@   props C07 C06
+//@   requires d != nil && ctx != nil && bufOK(ctx.Buf, cursor)
+//@   requires d.alen >= 0 && d.size >= 1 && d.size == rsize(d.elemType) && d.alen * d.size < 140737488355328
+//@   requires region(p, d.alen * d.size)
+//@   callassert[C07] Decode: within(arg4, d.size, p, d.alen * d.size)
+// decoders are immutable after construction: the element decoder does not modify this array decoder
+//@   postassume Decode: d.alen == old(d.alen) && d.size == old(d.size) && d.elemType == old(d.elemType) && d.valueDecoder == old(d.valueDecoder) && d.zeroValue == old(d.zeroValue)
+//@   ensures err == nil ==> cursor < c && c < len(old(ctx.Buf))
+//@   assigns all
+//@   loop 1: invariant old(cursor) <= cursor && cursor < len(buf) && buf[len(buf)-1] == 0 && buf == old(ctx.Buf)
+//@   loop 2: invariant 0 <= idx
+//@   loop 3: invariant 0 <= idx && idx <= cursor && old(cursor) <= cursor && cursor < len(buf) && buf[len(buf)-1] == 0 && buf == old(ctx.Buf) && ctx.Buf == old(ctx.Buf)
+//@   loop 3: invariant d.alen == old(d.alen) && d.size == old(d.size) && d.elemType == old(d.elemType)
+//@   loop 4: invariant 0 <= idx && d.alen == old(d.alen) && d.size == old(d.size) && d.elemType == old(d.elemType)
